@@ -11,7 +11,7 @@ import io
 import numpy as np
 
 from verifkit import losscase as LC
-from verifkit.common import canon_hash, short_exc, tb_tail
+from verifkit.common import bystander, canon_hash, short_exc, tb_tail
 from verifkit.gen import bounded as GB
 from verifkit.gen import specs as G
 from verifkit.ref.symbolic import RefModel
@@ -36,7 +36,7 @@ def plan(tier):
 
 def floors(tier):
     return {"nontrivial": 50, "held:main": 150, "held:integrated": 40, "counter:rhs_checks": 500, "counter:jacobian_checks": 500,
-            "counter:integrated_sensitivity_checks": 100, "counter:parameter_changes_between_evaluations": 150, "counter:z_form_int-list": 60, "counter:z_form_int64-array": 60, "counter:z_form_float-list": 60, "class:single-state": 10, "class:parameter-free": 10, "class:nP!=nS-1": 60,
+            "counter:integrated_sensitivity_checks": 100, "counter:parameter_changes_between_evaluations": 150, "counter:t_first_twin_calls": 300, "counter:z_form_int-list": 60, "counter:z_form_int64-array": 60, "counter:z_form_float-list": 60, "class:single-state": 10, "class:parameter-free": 10, "class:nP!=nS-1": 60,
             "class:time-dependent": 15, "class:derived-param": 15}
 
 
@@ -155,11 +155,18 @@ def run_case(rng, idx, tier, lane, ctx):
                       z = np.array(list(x) + [rng.uniform(-2, 2) for _ in range(nS * nP + (nS * nS if iv else 0))], dtype=float)
                       z_arg = z.copy() if z_form == "float-array" else z.tolist()
                   counters["z_form_" + z_form] = counters.get("z_form_" + z_form, 0) + 1
+                  use_T = rng.random() < 0.5
+                  if use_T:
+                      label = label.replace("(", "_T(") if "(" in label else label + "_T"
+                      counters["t_first_twin_calls"] = counters.get("t_first_twin_calls", 0) + 1
                   rr = ref_rhs(ref, th, by_state, iv)
                   exp = rr(z, t)
                   try:
                       with contextlib.redirect_stdout(io.StringIO()):
-                          got = np.asarray(m.ode_and_sensitivityIV(z_arg, t) if iv else m.ode_and_sensitivity(z_arg, t, by_state), dtype=float).reshape(-1)
+                          if use_T:    # the t-first twins handed to scipy's integrators
+                              got = np.asarray(m.ode_and_sensitivityIV_T(t, z_arg) if iv else m.ode_and_sensitivity_T(t, z_arg, by_state), dtype=float).reshape(-1)
+                          else:
+                              got = np.asarray(m.ode_and_sensitivityIV(z_arg, t) if iv else m.ode_and_sensitivity(z_arg, t, by_state), dtype=float).reshape(-1)
                       counters["rhs_checks"] += 1
                       sc = 1.0 + float(np.max(np.abs(exp)))
                       if got.shape != exp.shape or not np.all(np.abs(got - exp) <= 1e-10 * sc):
@@ -171,7 +178,10 @@ def run_case(rng, idx, tier, lane, ctx):
                       jl = label + "_jacobian"
                   try:
                       with contextlib.redirect_stdout(io.StringIO()):
-                          gotJ = np.asarray(m.ode_and_sensitivityIV_jacobian(z_arg, t) if iv else m.ode_and_sensitivity_jacobian(z_arg, t, by_state), dtype=float)
+                          if use_T:
+                              gotJ = np.asarray(m.ode_and_sensitivityIV_jacobian_T(t, z_arg) if iv else m.ode_and_sensitivity_jacobian_T(t, z_arg, by_state), dtype=float)
+                          else:
+                              gotJ = np.asarray(m.ode_and_sensitivityIV_jacobian(z_arg, t) if iv else m.ode_and_sensitivity_jacobian(z_arg, t, by_state), dtype=float)
                       counters["jacobian_checks"] += 1
                       expJ = fd_jacobian(rr, z, t)
                       sc = 1.0 + float(np.max(np.abs(expJ)))
@@ -180,6 +190,16 @@ def run_case(rng, idx, tier, lane, ctx):
                               max_error=float(np.max(np.abs(gotJ - expJ))) if gotJ.shape == expJ.shape else None, scale=sc, nS=nS, nP=nP)
                   except Exception as e:
                       bad("%s raised" % jl, error=short_exc(e), tb=tb_tail(e), nS=nS, nP=nP)
+        if nP:
+            zb = np.array([1.0 + 0.3 * k for k in range(nS)] + [0.1 * (k % 5) - 0.2 for k in range(nS * nP)])
+            thb = [0.3 + 0.21 * k for k in range(nP)]
+
+            def _again(m=m, zb=zb, thb=thb):
+                m.parameters = list(thb)
+                return [m.ode_and_sensitivity(zb.copy(), 0.4), m.ode_and_sensitivity_jacobian(zb.copy(), 0.4)]
+            w_ = bystander(ctx, _again, counters)
+            if w_:
+                wit.append(w_)
         nontriv = nS >= 2 and nP >= 2 and nP != nS - 1
     else:
         from pygom.model import ode_utils
